@@ -210,6 +210,16 @@ def instrument(source, path):
 
 
 class _Loader(importlib.machinery.SourceFileLoader):
+    def exec_module(self, module):
+        # module bodies run concretely even when the import happens in the middle of an exploration
+        # (module-level bytearray(...) etc. must be real objects, shared by every later path)
+        from . import explore as _ex
+        saved, _ex._CUR = _ex._CUR, None
+        try:
+            return super().exec_module(module)
+        finally:
+            _ex._CUR = saved
+
     def get_code(self, fullname):
         path = self.get_filename(fullname)
         data = self.get_data(path)
